@@ -19,11 +19,14 @@ VARIANTS = [
     {"name": "fixed(reopen=append, cursor read from datahub-backup.lastseen)", "findings": []},
 ]
 RULE = ("case = history over {write one entity (dataset ds0|ds1, entity e0..e5, value, deleted flag) | backup run "
-        "(BackupManager.Run) | hub restart (Store.Close + NewStore + NewBackupManager)} on a fresh store and a fresh backup "
-        "location, or on a location that belongs to another store (foreign); quick = hand-written witnesses + 140 PRNG "
-        "histories of <= 11 steps with <= 4 backup runs; thorough = every step-shape sequence over {w,b,r} of length <= 6 "
-        "with PRNG payloads + longer PRNG histories; non-trivial = at least two returned backup runs with a commit in "
-        "between (the incremental path), or a foreign location with at least one run; distinct = distinct histories")
+        "(BackupManager.Run) | hub restart (Store.Close + NewStore + NewBackupManager) | the environment replaces the "
+        "location's DATAHUB_BACKUPID by a given byte string | removes it} on a fresh store whose own id file is hub-generated "
+        "or operator-assigned, and a backup location that is empty or pre-filled (id file + somebody's files); ids from an "
+        "adversarial alphabet (generated-looking numbers, labels, whitespace/newline variants, prefixes, leading zeros, empty); "
+        "quick = hand-written witnesses + 170 PRNG histories of <= 11 steps with <= 4 backup runs; thorough = every "
+        "step-shape sequence over {w,b,r} of length <= 6 with PRNG payloads + 690 longer PRNG histories; non-trivial = at "
+        "least two returned backup runs with a commit in between (the incremental path), or a run attempted while the "
+        "location carries a different id; distinct = distinct histories")
 TRUSTED = [
     "Badger (hypotheses of every C20 theorem, Model/Backup.v badger_backup / badger_load / latest): DB.Backup(w, since) "
     "sends every entry with version > since and returns the highest version sent (0 if none, (0, err) if a write fails); "
@@ -54,8 +57,21 @@ B = {"op": "b"}
 R = {"op": "r"}
 
 
-def mk(ops, foreign=False):
-    return {"ops": [dict(o) for o in ops], "foreign": foreign}
+def I(idstr):
+    return {"op": "i", "id": idstr}
+
+
+X = {"op": "x"}
+
+# storage ids: hub-generated look-alikes, operator-assigned labels, ids that differ only in whitespace / a trailing
+# newline / leading zeros, prefixes of one another, empty
+IDS = ["1790000000000000001", "1790000000000000002", "17900000000000000010", "hub-a", "hub-b", "hub-a\n", " hub-a",
+       "hub", "", "0", "00", "4711", "4711\n"]
+
+
+def mk(ops, foreign=False, sid=None, locid0="4711"):
+    """sid None = the hub generates its DATAHUB_BACKUPID; foreign = location pre-filled with id file locid0 + files"""
+    return {"ops": [dict(o) for o in ops], "foreign": foreign, "sid": sid, "locid0": locid0 if foreign else ""}
 
 
 def witness_cases():
@@ -69,6 +85,18 @@ def witness_cases():
         mk([B]),
         mk([W(0, 1, 3), B, W(0, 1, 3), B], foreign=True),
         mk([B, R, B, W(1, 1, 1), B], foreign=True),
+        # the location's id file is replaced / emptied / removed between runs of ONE process and across restarts
+        mk([W(0, 1, 3), B, I("1790000000000000002"), B, W(0, 2, 4), R, B, X, B]),
+        mk([W(0, 1, 3), B, I(""), W(0, 2, 4), B, R, B, X, R, B]),
+        mk([W(0, 1, 3), B, X, W(0, 2, 4), B]),
+        # operator-assigned ids: labels, whitespace, prefixes, empty, leading zeros
+        mk([B, R, W(0, 1, 3), B], foreign=True, sid="hub-b", locid0="hub-a"),
+        mk([W(0, 1, 3), B, R, B, I("hub-b"), B, R, B], sid="hub-a"),
+        mk([W(0, 1, 3), B, I("hub-a\n"), B, I(" hub-a"), R, B, I("hub"), R, B, I("hub-a"), R, B], sid="hub-a"),
+        mk([B, R, B], foreign=True, sid="0", locid0="00"),
+        mk([B, R, B], foreign=True, sid="", locid0="0"),
+        mk([W(1, 0, 1), B, R, W(1, 0, 2), B], foreign=True, sid="", locid0=""),
+        mk([B], foreign=True, sid="4711\n", locid0="4711"),
     ]
 
 
@@ -80,11 +108,24 @@ def rand_w(rng):
     return W(rng.below(2), rng.below(4), rng.below(8), rng.chance(1, 6))
 
 
-def rand_hist(rng, maxlen, maxb=4):
+def rand_id(rng, sid):
+    """an id for the location: adversarial w.r.t. the store's id when that is known"""
+    if sid is not None and rng.chance(1, 4):
+        return sid
+    if sid is not None and rng.chance(1, 3):
+        return rng.choice([sid + "\n", " " + sid, sid[:-1], sid + "0", "0" + sid])
+    return rng.choice(IDS)
+
+
+def rand_hist(rng, maxlen, maxb=4, env=0, sid=None):
+    """env = chance (in tenths) that a step is an environment change of the location's id file"""
     n = rng.range(2, maxlen)
     ops = []
     nb = 0
     for _ in range(n):
+        if env and rng.below(10) < env:
+            ops.append(I(rand_id(rng, sid)) if rng.chance(3, 4) else X)
+            continue
         x = rng.below(10)
         if x < 5:
             ops.append(rand_w(rng))
@@ -100,17 +141,25 @@ def rand_hist(rng, maxlen, maxb=4):
 
 def gen(rng, tier):
     out = []
+    def idcases(n_env, n_pre):
+        for _ in range(n_env):      # id file changed under a running / restarted hub
+            sid = rng.choice([None, None] + IDS)
+            ops = rand_hist(rng, 10, env=2, sid=sid)
+            if not any(o["op"] == "b" for o in ops):
+                ops.append(B)
+            out.append(mk(ops, sid=sid))
+        for _ in range(n_pre):      # pre-filled location, ids from the adversarial alphabet
+            sid = rng.choice([None] + IDS)
+            out.append(mk(rand_hist(rng, 6, env=1, sid=sid) + [B], foreign=True, sid=sid, locid0=rand_id(rng, sid)))
     if tier == "quick":
-        for _ in range(130):
-            out.append(mk(rand_hist(rng, 11)))
-        for _ in range(10):
-            out.append(mk(rand_hist(rng, 6), foreign=True))
+        for _ in range(100):
+            out.append(mk(rand_hist(rng, 11), sid=rng.choice([None, None, None] + IDS)))
+        idcases(45, 25)
         return out
     if tier == "search":
-        for _ in range(150):
+        for _ in range(120):
             out.append(mk(rand_hist(rng, 9)))
-        for _ in range(10):
-            out.append(mk(rand_hist(rng, 6), foreign=True))
+        idcases(60, 40)
         return out
     # thorough: every shape over {w,b,r} up to length 6, PRNG payloads
     for n in range(1, 7):
@@ -121,13 +170,12 @@ def gen(rng, tier):
             out.append(mk(ops))
     for _ in range(200):
         out.append(mk(rand_hist(rng, 14)))
-    for _ in range(40):
-        out.append(mk(rand_hist(rng, 8), foreign=True))
+    idcases(300, 150)
     return out
 
 
 DIED = {"maxv": [], "cursor": [], "disk": [], "bres": [], "grew": [], "snap": None, "hassnap": False,
-        "restored": None, "hasrest": False, "richeq": False, "raweq": False, "foreignstate": ""}
+        "restored": None, "hasrest": False, "richeq": False, "raweq": False, "sid": "", "locid": [], "touched": []}
 
 
 def run(binp, cases):
@@ -149,6 +197,15 @@ def opt(present, txt):
     return "(Some %s)" % txt if present else "None"
 
 
+def bts(x):
+    """byte string -> Coq list N"""
+    return vlib.coq_list(["%d" % b for b in x.encode("utf-8")])
+
+
+def optb(x):
+    return "None" if x is None else "(Some %s)" % bts(x)
+
+
 def term(c, o):
     ops = c["ops"]
     good = o.get("outcome") == "ok" and len(o.get("maxv") or []) == len(ops) + 1
@@ -160,29 +217,34 @@ def term(c, o):
             t_ops.append("OWrite %d %d %d %d %s" % (m, op["ds"], op["k"], op["v"], vlib.coq_bool(op.get("del", False))))
         elif op["op"] == "b":
             t_ops.append("OBackup")
+        elif op["op"] == "i":
+            t_ops.append("OSetLocId %s" % bts(op["id"]))
+        elif op["op"] == "x":
+            t_ops.append("ODelLocId")
         else:
             t_ops.append("ORestart %d" % m)
     steps = []
     if good:
         for i in range(1, len(ops) + 1):
             d = o["disk"][i]
-            steps.append("{| x_cursor := %d; x_disk := %s; x_res := %d; x_grew := %s |}" % (
-                o["cursor"][i], opt(d >= 0, "%d" % max(d, 0)), o["bres"][i], vlib.coq_bool(o["grew"][i])))
-    return ("({| c_m0 := %d; c_ops := %s; c_foreign := %s; o_cursor0 := %d; o_steps := %s; o_snap := %s; "
-            "o_restored := %s; o_rich_eq := %s; o_raw_eq := %s; o_untouched := %s |})%%N" % (
-                maxv[0], vlib.coq_list(t_ops), vlib.coq_bool(c.get("foreign", False)),
-                o["cursor"][0] if good else 0, vlib.coq_list(steps),
+            steps.append("{| x_cursor := %d; x_disk := %s; x_res := %d; x_grew := %s; x_locid := %s; x_touched := %s |}" % (
+                o["cursor"][i], opt(d >= 0, "%d" % max(d, 0)), o["bres"][i], vlib.coq_bool(o["grew"][i]),
+                optb(o["locid"][i]), vlib.coq_bool(o["touched"][i])))
+    return ("({| c_m0 := %d; c_ops := %s; c_sid := %s; c_foreign := %s; c_locid0 := %s; o_cursor0 := %d; o_locid0 := %s; "
+            "o_steps := %s; o_snap := %s; o_restored := %s; o_rich_eq := %s; o_raw_eq := %s |})%%N" % (
+                maxv[0], vlib.coq_list(t_ops), bts(o.get("sid", "") if good else ""), vlib.coq_bool(c.get("foreign", False)),
+                bts(c.get("locid0", "") or ""), o["cursor"][0] if good else 0,
+                optb(o["locid"][0]) if good else "None", vlib.coq_list(steps),
                 opt(o.get("hassnap"), rows(o.get("snap") or [])),
                 opt(o.get("hasrest"), rows(o.get("restored") or [])),
-                vlib.coq_bool(o.get("richeq", False)), vlib.coq_bool(o.get("raweq", False)),
-                vlib.coq_bool(o.get("foreignstate") == "untouched")))
+                vlib.coq_bool(o.get("richeq", False)), vlib.coq_bool(o.get("raweq", False))))
 
 
 def predict_text(c, o):
     t = term(c, o)
     body = ("Definition c : tcase := %s.\n"
             "Definition show (v : variant) := let p := predict v c in (p_cursor0 p, p_steps p, option_map listing (p_snap p), "
-            "option_map listing (p_file p), p_untouched p).\n"
+            "option_map listing (p_file p)).\n"
             "Eval vm_compute in (show current).\nEval vm_compute in (show fixed).\n" % t)
     ok, out, _ = vlib.coq_eval("C20p", [CHECK_MODULE, "Model.Backup"], body)
     return out.strip()
@@ -193,6 +255,10 @@ def attribute(c, o):
     unchanged although the store had moved past the cursor (F20a).  F20b alone never breaks the restore."""
     if c.get("foreign") or o.get("outcome") != "ok":
         return None
+    for i, op in enumerate(c["ops"]):   # a write into a foreign location is never one of the recorded findings
+        if op["op"] not in "ix" and o["locid"][i] is not None and o["locid"][i] != o["sid"] and (
+                o["touched"][i + 1] or o["bres"][i + 1] == 1):
+            return None
     seen_file = False
     for i, op in enumerate(c["ops"]):
         if op["op"] != "b" or o["bres"][i + 1] != 1:
@@ -210,8 +276,11 @@ def size(c):
 def classify(c, o):
     if o.get("outcome") != "ok":
         return None
+    for i, op in enumerate(c["ops"]):   # a run attempted while the location carries a different id
+        if op["op"] == "b" and o["locid"][i] is not None and o["locid"][i] != o["sid"]:
+            return "foreign-run"
     if c.get("foreign"):
-        return "foreign" if any(x["op"] == "b" for x in c["ops"]) else None
+        return None
     last = None
     for i, op in enumerate(c["ops"]):
         if op["op"] == "b" and o["bres"][i + 1] == 1:
@@ -224,6 +293,10 @@ def classify(c, o):
 def tags(c, o):
     nb = sum(1 for x in c["ops"] if x["op"] == "b")
     nr = sum(1 for x in c["ops"] if x["op"] == "r")
-    return ["backups=%d" % nb, "restarts=%d" % min(nr, 3), "foreign=%s" % bool(c.get("foreign")),
+    ne = sum(1 for x in c["ops"] if x["op"] in "ix")
+    sid = c.get("sid")
+    kind = "generated" if sid is None else ("numeric" if sid.isdigit() else ("empty" if sid == "" else "label/whitespace"))
+    return ["backups=%d" % nb, "restarts=%d" % min(nr, 3), "prefilled=%s" % bool(c.get("foreign")),
+            "idfile-changes=%d" % min(ne, 3), "store-id=" + kind,
             "outcome=" + str(o.get("outcome")), "len=%d" % min(len(c["ops"]), 12),
             "restore=" + ("none" if not o.get("hasrest") else ("equal" if o.get("richeq") else "differs"))]
